@@ -534,6 +534,10 @@ func rootedPathOfValue(v ssa.Value) string { return rootedPath(v) }
 // P4RuntimeError are filtered: OK and ALREADY_EXISTS are tolerated, anything else must end
 // in an error return at once; an error with no statuses must not fall through to success.
 func ruleC15StatusFilter(w *World, r *Report, f *ssa.Function, apply *ssa.Call) {
+	statusFilterRule(w, r, "R15.4", f, apply)
+}
+
+func statusFilterRule(w *World, r *Report, rule string, f *ssa.Function, apply *ssa.Call) {
 	fn := w.FuncName(f)
 	ev := ssa.Value(apply)
 	okCode := w.ConstInt("C15", "google.golang.org/grpc/codes", "OK")
@@ -558,7 +562,7 @@ func ruleC15StatusFilter(w *World, r *Report, f *ssa.Function, apply *ssa.Call) 
 		}
 	}
 	if hdr == nil {
-		r.bad("R15.4", fn, "per-update statuses of a P4Runtime error are examined", w.Pos(apply.Pos()), "no loop over P4RuntimeError.Get() found: a failed batch write is not analysed")
+		r.bad(rule, fn, "per-update statuses of a P4Runtime error are examined", w.Pos(apply.Pos()), "no loop over P4RuntimeError.Get() found: a failed batch write is not analysed")
 		return
 	}
 	// tolerated codes: the equality tests on GetCanonicalCode() inside the loop
@@ -585,7 +589,7 @@ func ruleC15StatusFilter(w *World, r *Report, f *ssa.Function, apply *ssa.Call) 
 		}
 	}
 	okSet := len(tolerated) == 2 && tolerated[okCode] && tolerated[existsCode]
-	r.check(okSet, "R15.4", fn, "only OK and ALREADY_EXISTS statuses are tolerated", w.Pos(apply.Pos()), fmt.Sprint(tolerated), fmt.Sprintf("tolerated status codes are %v", tolerated))
+	r.check(okSet, rule, fn, "only OK and ALREADY_EXISTS statuses are tolerated", w.Pos(apply.Pos()), fmt.Sprint(tolerated), fmt.Sprintf("tolerated status codes are %v", tolerated))
 	// the block reached when the status differs from every tolerated code: the last NEQ edge in the chain
 	var badBlock *ssa.BasicBlock
 	for _, e := range badEdges {
@@ -603,7 +607,7 @@ func ruleC15StatusFilter(w *World, r *Report, f *ssa.Function, apply *ssa.Call) 
 		}
 	}
 	if badBlock == nil || len(badBlock.Instrs) == 0 {
-		r.bad("R15.4", fn, "a non-tolerated status is acted upon", w.Pos(apply.Pos()), "no branch for a status that is neither OK nor ALREADY_EXISTS: the decision is not taken per status (e.g. a flag overwritten by later statuses)")
+		r.bad(rule, fn, "a non-tolerated status is acted upon", w.Pos(apply.Pos()), "no branch for a status that is neither OK nor ALREADY_EXISTS: the decision is not taken per status (e.g. a flag overwritten by later statuses)")
 	} else {
 		first := badBlock.Instrs[0]
 		// from there: no way back to the loop head, no nil-error return
@@ -619,7 +623,7 @@ func ruleC15StatusFilter(w *World, r *Report, f *ssa.Function, apply *ssa.Call) 
 		if _, isRet := first.(*ssa.Return); isRet && !isNilConst(res(first.(*ssa.Return), 0)) {
 			back = nil
 		}
-		r.check(back == nil, "R15.4", fn, "the first failing status rejects the request", w.Pos(first.Pos()), "error return without re-entering the loop", "after a status that is neither OK nor ALREADY_EXISTS the loop continues (or success is returned): a later tolerated status lets the failed write pass as accepted")
+		r.check(back == nil, rule, fn, "the first failing status rejects the request", w.Pos(first.Pos()), "error return without re-entering the loop", "after a status that is neither OK nor ALREADY_EXISTS the loop continues (or success is returned): a later tolerated status lets the failed write pass as accepted")
 	}
 	// empty status list: the loop's exit edge must not lead to success when err != nil
 	exit := hdr.Succs[1]
@@ -649,7 +653,7 @@ func ruleC15StatusFilter(w *World, r *Report, f *ssa.Function, apply *ssa.Call) 
 				}
 			}
 		}
-		r.check(guard, "R15.4", fn, "a P4Runtime error without per-update statuses is a failure", w.Pos(apply.Pos()), "len(statuses) == 0 → error", "a P4RuntimeError with an empty status list falls through the filter loop and the failed write is treated as success")
+		r.check(guard, rule, fn, "a P4Runtime error without per-update statuses is a failure", w.Pos(apply.Pos()), "len(statuses) == 0 → error", "a P4RuntimeError with an empty status list falls through the filter loop and the failed write is treated as success")
 	}
 	_ = ev
 }
